@@ -82,8 +82,11 @@ mod sys {
         pub fn clock_gettime(clock_id: i32, tp: *mut Timespec) -> i32;
         pub fn signal(signum: i32, handler: usize) -> usize;
         pub fn pause() -> i32;
+        pub fn kill(pid: i32, sig: i32) -> i32;
+        pub fn getpid() -> i32;
     }
     pub const SIGUSR1: i32 = 10;
+    pub const SIGTERM: i32 = 15;
     /// Signal handler that never returns: the thread it runs on sleeps forever (no CPU use).
     pub extern "C" fn park_forever(_sig: i32) {
         loop {
@@ -264,44 +267,75 @@ fn judge(case: &Case) -> Report {
 }
 
 /// How many parked (non-terminating) threads a worker process accumulates before it asks to be
-/// replaced (far below glibc's malloc-arena limit, so a parked thread's arena is never shared).
-const MAX_PARKED: u32 = 40;
+/// replaced.
+const MAX_PARKED: u32 = 32;
 
-/// One thread that runs cases; returns its job sender, result receiver and CPU clock id.
-fn spawn_runner() -> (std::sync::mpsc::Sender<std::sync::Arc<String>>, std::sync::mpsc::Receiver<Report>, i32) {
-    use std::sync::mpsc::channel;
-    let (tx_job, rx_job) = channel::<std::sync::Arc<String>>();
-    let (tx_res, rx_res) = channel::<Report>();
-    let (tx_id, rx_id) = channel::<u64>();
-    std::thread::Builder::new()
+/// Mailbox between the worker's main thread and one runner thread. It is leaked on purpose and
+/// holds no owned heap data: a runner can be stopped at *any* instruction (possibly while it
+/// holds the lock of its malloc arena), so the two threads never free each other's memory and
+/// never share a lock: the main thread only *reads* the reply bytes, the runner only *reads* the
+/// case line.
+struct Mailbox {
+    /// 0 = idle, 1 = case posted, 2 = reply ready
+    state: std::sync::atomic::AtomicU32,
+    job_ptr: std::sync::atomic::AtomicUsize,
+    job_len: std::sync::atomic::AtomicUsize,
+    rep_ptr: std::sync::atomic::AtomicUsize,
+    rep_len: std::sync::atomic::AtomicUsize,
+    pthread: AtomicU64,
+}
+struct Runner {
+    mb: &'static Mailbox,
+    handle: std::thread::JoinHandle<()>,
+    clock: i32,
+}
+fn spawn_runner() -> Runner {
+    use std::sync::atomic::{AtomicU32, AtomicUsize};
+    let mb: &'static Mailbox = Box::leak(Box::new(Mailbox {
+        state: AtomicU32::new(0),
+        job_ptr: AtomicUsize::new(0),
+        job_len: AtomicUsize::new(0),
+        rep_ptr: AtomicUsize::new(0),
+        rep_len: AtomicUsize::new(0),
+        pthread: AtomicU64::new(0),
+    }));
+    let main_thread = std::thread::current();
+    let handle = std::thread::Builder::new()
         .stack_size(16 << 20)
         .spawn(move || {
-            tx_id.send(unsafe { sys::pthread_self() }).ok();
-            while let Ok(line) = rx_job.recv() {
-                let case: Case = match serde_json::from_str(&line) {
+            mb.pthread.store(unsafe { sys::pthread_self() }, Ordering::SeqCst);
+            main_thread.unpark();
+            #[allow(unused_assignments)]
+            let mut reply = String::new(); // owned (and only ever freed) by this thread
+            loop {
+                while mb.state.load(Ordering::SeqCst) != 1 {
+                    std::thread::park();
+                }
+                let line: &str = unsafe { std::str::from_utf8_unchecked(std::slice::from_raw_parts(mb.job_ptr.load(Ordering::SeqCst) as *const u8, mb.job_len.load(Ordering::SeqCst))) };
+                let case: Case = match serde_json::from_str(line) {
                     Ok(c) => c,
                     Err(e) => {
                         eprintln!("MACHINERY-ERROR: worker got a bad case: {e}");
                         std::process::exit(2);
                     }
                 };
-                // the line itself stays owned by the main thread (this thread may be parked at any point)
-                drop(line);
-                if tx_res.send(judge(&case)).is_err() {
-                    break;
-                }
+                reply = serde_json::to_string(&judge(&case)).unwrap();
+                mb.rep_ptr.store(reply.as_ptr() as usize, Ordering::SeqCst);
+                mb.rep_len.store(reply.len(), Ordering::SeqCst);
+                mb.state.store(2, Ordering::SeqCst);
+                main_thread.unpark();
             }
         })
         .unwrap_or_else(|e| mcx::machinery(&format!("cannot start runner thread: {e}")));
-    let pt = rx_id.recv().unwrap_or_else(|_| mcx::machinery("runner thread did not start"));
+    while mb.pthread.load(Ordering::SeqCst) == 0 {
+        std::thread::park_timeout(std::time::Duration::from_millis(1));
+    }
     let mut clock = 0i32;
-    if unsafe { sys::pthread_getcpuclockid(pt, &mut clock) } != 0 {
+    if unsafe { sys::pthread_getcpuclockid(mb.pthread.load(Ordering::SeqCst), &mut clock) } != 0 {
         mcx::machinery("pthread_getcpuclockid failed");
     }
-    RUNNER_PT.store(pt, Ordering::Relaxed);
-    (tx_job, rx_res, clock)
+    Runner { mb, handle, clock }
 }
-static RUNNER_PT: AtomicU64 = AtomicU64::new(0);
 
 /// Worker protocol: one case (JSON) per input line; one reply line per case:
 /// a `Report` as JSON, or `!HANG <cpu_us>`; `!RECYCLE` asks the explorer for a fresh process.
@@ -311,7 +345,7 @@ fn worker_main() -> ! {
     unsafe {
         sys::signal(sys::SIGUSR1, sys::park_forever as usize);
     }
-    // wall-clock guard against a wedged worker (never a verdict: exit code 3 is a machinery error)
+    // wall-clock guard against a wedged worker (never a verdict: SIGTERM is a machinery error for the explorer)
     static PROGRESS: AtomicU64 = AtomicU64::new(0);
     std::thread::spawn(|| {
         let mut last = (PROGRESS.load(Ordering::Relaxed), 0u32);
@@ -319,65 +353,63 @@ fn worker_main() -> ! {
             std::thread::sleep(std::time::Duration::from_secs(10));
             let p = PROGRESS.load(Ordering::Relaxed);
             last = if p == last.0 && p % 2 == 1 { (p, last.1 + 1) } else { (p, 0) };
-            if last.1 >= 60 {
-                eprintln!("MACHINERY-ERROR: worker made no progress for 10 minutes");
-                std::process::exit(3);
+            if last.1 >= 30 {
+                unsafe {
+                    sys::kill(sys::getpid(), sys::SIGTERM);
+                }
             }
         }
     });
     let stdin = std::io::stdin();
-    let stdout = std::io::stdout();
-    let mut out = stdout.lock();
-    let (mut tx_job, mut rx_res, mut clock) = spawn_runner();
+    let mut runner = spawn_runner();
     let mut parked = 0u32;
     for line in stdin.lock().lines() {
         let Ok(line) = line else { break };
         if line.is_empty() {
             continue;
         }
-        let line = std::sync::Arc::new(line);
-        let start = sys::cpu_us(clock);
+        let start = sys::cpu_us(runner.clock);
         PROGRESS.fetch_add(1, Ordering::Relaxed); // odd = a case is in flight
-        if tx_job.send(line.clone()).is_err() {
-            eprintln!("MACHINERY-ERROR: runner thread died");
-            std::process::exit(2);
-        }
-        let reply = loop {
-            match rx_res.recv_timeout(std::time::Duration::from_millis(1)) {
-                Ok(rep) => break serde_json::to_string(&rep).unwrap(),
-                Err(std::sync::mpsc::RecvTimeoutError::Timeout) => {
-                    let used = sys::cpu_us(clock) - start;
-                    if used > cpu_limit_us {
-                        // park the runner for good and continue with a fresh one
-                        unsafe {
-                            sys::pthread_kill(RUNNER_PT.load(Ordering::Relaxed), sys::SIGUSR1);
-                        }
-                        parked += 1;
-                        // the parked thread keeps its ends of the old channels; forget ours so nothing is freed under it
-                        let fresh = spawn_runner();
-                        std::mem::forget(std::mem::replace(&mut tx_job, fresh.0));
-                        std::mem::forget(std::mem::replace(&mut rx_res, fresh.1));
-                        clock = fresh.2;
-                        break format!("!HANG {used}");
-                    }
+        runner.mb.job_ptr.store(line.as_ptr() as usize, Ordering::SeqCst);
+        runner.mb.job_len.store(line.len(), Ordering::SeqCst);
+        runner.mb.state.store(1, Ordering::SeqCst);
+        runner.handle.thread().unpark();
+        let mut hang = false;
+        let mut out = loop {
+            if runner.mb.state.load(Ordering::SeqCst) == 2 {
+                let bytes = unsafe { std::slice::from_raw_parts(runner.mb.rep_ptr.load(Ordering::SeqCst) as *const u8, runner.mb.rep_len.load(Ordering::SeqCst)) };
+                let copy = String::from_utf8_lossy(bytes).into_owned();
+                runner.mb.state.store(0, Ordering::SeqCst);
+                break copy;
+            }
+            std::thread::park_timeout(std::time::Duration::from_millis(1));
+            if runner.mb.state.load(Ordering::SeqCst) == 2 {
+                continue;
+            }
+            let used = sys::cpu_us(runner.clock) - start;
+            if used > cpu_limit_us {
+                // stop the runner for good (it sleeps in the signal handler) and continue with a fresh one
+                unsafe {
+                    sys::pthread_kill(runner.mb.pthread.load(Ordering::SeqCst), sys::SIGUSR1);
                 }
-                Err(std::sync::mpsc::RecvTimeoutError::Disconnected) => {
-                    eprintln!("MACHINERY-ERROR: runner thread died (harness panic outside catch?)");
-                    std::process::exit(2);
-                }
+                parked += 1;
+                hang = true;
+                let old = std::mem::replace(&mut runner, spawn_runner());
+                std::mem::forget(old);
+                break format!("!HANG {used}");
             }
         };
         PROGRESS.fetch_add(1, Ordering::Relaxed);
-        if reply.starts_with("!HANG") {
-            std::mem::forget(line.clone()); // a parked runner might still hold the line: never free it
+        if hang {
+            std::mem::forget(line); // the stopped runner still points into the line
         }
         let recycle = parked >= MAX_PARKED;
-        let mut s = reply;
-        s.push('\n');
+        out.push('\n');
         if recycle {
-            s.push_str("!RECYCLE\n");
+            out.push_str("!RECYCLE\n");
         }
-        if out.write_all(s.as_bytes()).is_err() || out.flush().is_err() {
+        let mut so = std::io::stdout();
+        if so.write_all(out.as_bytes()).is_err() || so.flush().is_err() {
             break;
         }
         if recycle {
@@ -541,6 +573,7 @@ impl<'a> Explorer<'a> {
                 }
             }
             Res::Killed(SIGKILL) => mcx::machinery("a worker was killed by SIGKILL (out of memory?)"),
+            Res::Killed(sys::SIGTERM) => mcx::machinery("a worker made no progress for 5 minutes of wall time and terminated itself"),
             Res::Killed(s) => {
                 ctx.add_transitions(1);
                 ctx.violation(format!("crash signal {s} ({})", case.op()), cj(), json!({"observed": format!("the worker process died with signal {s}")}));
